@@ -6,6 +6,8 @@ its own vector (round trip), random right-length vectors, hostile arrays and eve
 """
 import numpy as np
 
+from vf.tx import amax as _amax
+
 from vf.core import Workload
 from vf import taps, gen, tx, warm
 from vf.digest import digest, diff, writeable_flags, shared
@@ -156,7 +158,7 @@ class FromVectorMonitor(taps.Monitor):
         if is_alignment(r):
             e = tx.maxdiff(r.target.points, r.apply(r.source.points))
             ctx.err("alignment_target_sync", e)
-            if e > 1e-9 * max(1.0, float(np.abs(r.target.points).max())):
+            if not (e <= 1e-9 * max(1.0, float(np.abs(r.target.points).max()))):
                 ctx.fail("alignment_target_not_equal_to_aligned_source_after_update", cls=cls, err=e)
             if tx.maxdiff(r.source.points, o.source.points) > 0:
                 ctx.fail("alignment_source_changed_by_from_vector", cls=cls)
@@ -165,7 +167,7 @@ class FromVectorMonitor(taps.Monitor):
         if same:
             ctx.tap("round_trip_state", "calls"); ctx.tap("round_trip_state", "checked")
             if isinstance(o, mt.Homogeneous):
-                if np.abs(np.asarray(r.h_matrix) - np.asarray(o.h_matrix)).max() > 1e-10 * max(1.0, np.abs(o.h_matrix).max()):
+                if _amax(np.asarray(r.h_matrix) - np.asarray(o.h_matrix)) > 1e-10 * max(1.0, np.abs(o.h_matrix).max()):
                     ctx.fail("round_trip_changed_the_matrix", cls=cls)
                 if is_alignment(o):
                     return
